@@ -190,11 +190,12 @@ def _converter_children(case, ctx, sg, d, spec, sites, shanks):
     ctx.label("child_via_converter")
     for sh in shanks:
         fold = root / ("probe00" + chr(97 + int(sh)))
-        metas = sorted(fold.glob("*.ap.meta")) if fold.exists() else []
-        if not ctx.check(len(metas) == 1, "C08.converter_child_missing", lambda: f"no split ap metadata for shank {sh} in {fold.name}"):
+        metas = (sorted(fold.glob("*.ap.meta")) + sorted(fold.glob("*.lf.meta"))) if fold.exists() else []
+        if not ctx.check(len(metas) == 2, "C08.converter_child_missing",
+                         lambda: f"split ap + lf metadata for shank {sh} in {fold.name}: {[m.name for m in metas]}"):
             return
-        for sort in (False, True):
-            mdc = ctx.call("C08.read_meta", sg.read_meta_data, metas[0])
+        for sort, mfile in ((False, metas[0]), (True, metas[0]), (False, metas[1]), (True, metas[1])):
+            mdc = ctx.call("C08.read_meta", sg.read_meta_data, mfile)
             if mdc is ctx.CRASH:
                 return
             rc = ctx.call("C08.child_geometry", sg.geometry_from_meta, mdc, return_index=True, sort=sort)
